@@ -104,13 +104,16 @@ def parse_output(text):
     return res
 
 
-def run_cases(exe, cases, workdir, tag, timeout=3000):
+def run_cases(exe, cases, workdir, tag, timeout=3000, case_timeout=600, case_cpu=None):
     """cases: list of (id, text-of-directives).  Runs one harness process; returns dict id -> CaseResult."""
     path = os.path.join(workdir, "%s.cases" % tag)
     with open(path, "w") as f:
         for cid, text in cases:
             f.write("CASE %s\n%s\nEND\n" % (cid, text.rstrip("\n")))
-    r = subprocess.run([exe, path], stdout=subprocess.PIPE, stderr=subprocess.PIPE, timeout=timeout)
+    env = dict(os.environ, ROUTEX_TIMEOUT=str(case_timeout))   # a case that hangs is killed (reported as CRASH sig=14)
+    if case_cpu:
+        env["ROUTEX_CPU"] = str(case_cpu)                       # ... or sig=24 when it burnt that many CPU seconds
+    r = subprocess.run([exe, path], stdout=subprocess.PIPE, stderr=subprocess.PIPE, timeout=timeout, env=env)
     out = r.stdout.decode("utf-8", "replace")
     res = parse_output(out)
     for cid, _ in cases:
